@@ -22,17 +22,27 @@ Why(e) ==
     IF e.text # Render(e.src) THEN "MACHINERY-Binding"              \* the text given to the real one is not the abstract source
     ELSE IF ~WellFormed(e.src) THEN "MACHINERY-NotSpecified"        \* the generator left the domain the reference speaks about
     ELSE IF ~e.ok THEN "ExpansionEqualsReference"                   \* the real preprocessor refused a well-formed source
+    ELSE IF ExpansionEqualsReference(e.src, e.lex)
+    THEN (IF ~StringsInviolate(e.src, e.lex) THEN "StringsInviolate"
+          ELSE IF IsPlain(e.src) /\ e.body # e.text THEN "PassThrough"         \* byte for byte
+          ELSE IF ~InactiveBranchSilent(e.src, e.lex) THEN "InactiveBranchSilent"
+          ELSE "")
+    \* the output is not the reference output: name the most specific formula it contradicts
+    ELSE IF ExplainingDev(e.src, e.lex) # "" THEN "InactiveBranchSilent"        \* exactly what an expander does in which inactive text/directives take effect
     ELSE IF ~StringsInviolate(e.src, e.lex) THEN "StringsInviolate"
-    ELSE IF IsPlain(e.src) /\ (e.body # e.text \/ ~PassThroughNoWs(e.src, e.lex)) THEN "PassThrough"   \* byte for byte
-    ELSE IF ~InactiveBranchSilent(e.src, e.lex) THEN "InactiveBranchSilent"
-    ELSE IF ~ExpansionEqualsReference(e.src, e.lex) THEN "ExpansionEqualsReference"
-    ELSE ""
+    ELSE IF IsPlain(e.src) THEN "PassThrough"
+    ELSE IF ~InactiveBranchSilent(e.src, e.lex) THEN "InactiveBranchSilent"     \* a word that only occurs in inactive lines came out
+    ELSE "ExpansionEqualsReference"
 
 Construct(e, w) ==
     IF w \in {"MACHINERY-Binding", "MACHINERY-NotSpecified"} THEN "-"
     ELSE IF ~e.ok THEN "preprocess-failed"
     ELSE IF w = "InactiveBranchSilent" /\ ExplainingDev(e.src, e.lex) # "" THEN ExplainingDev(e.src, e.lex)
     ELSE e.src[FirstDivergence(e.src, e.lex)].tag
+
+\* the reference output as text (for the finding report)
+RECURSIVE SpellOut(_)
+SpellOut(seq) == IF Len(seq) = 0 THEN "" ELSE (IF Head(seq).k = "nl" THEN "\n" ELSE Head(seq).s) \o SpellOut(Tail(seq))
 
 TraceInit == l = 1 /\ dead = FALSE /\ bad = <<>> /\ nops = 0 /\ done = FALSE
 
@@ -43,12 +53,12 @@ Consume ==
     /\ LET e == Log[l] IN
        CASE e.e = "Reset" -> dead' = FALSE /\ UNCHANGED <<bad, nops>>
          [] e.e = "Crash" ->
-                /\ bad' = IF dead THEN bad ELSE Append(bad, [id |-> e.id, line |-> l, why |-> "Crash", op |-> e.why, at |-> 0])
+                /\ bad' = IF dead THEN bad ELSE Append(bad, [id |-> e.id, line |-> l, why |-> "Crash", op |-> e.why, ref |-> "", at |-> 0])
                 /\ dead' = TRUE /\ UNCHANGED nops
          [] e.e = "Obs" /\ ~dead ->
                 LET w == Why(e) IN
                 IF w = "" THEN nops' = nops + 1 /\ UNCHANGED <<dead, bad>>
-                ELSE /\ bad' = Append(bad, [id |-> e.id, line |-> l, why |-> w, op |-> Construct(e, w),
+                ELSE /\ bad' = Append(bad, [id |-> e.id, line |-> l, why |-> w, op |-> Construct(e, w), ref |-> SpellOut(RefOut(e.src)),
                                             at |-> IF e.ok /\ w \notin {"MACHINERY-Binding", "MACHINERY-NotSpecified"} THEN FirstDivergence(e.src, e.lex) ELSE 0])
                      /\ dead' = TRUE /\ UNCHANGED nops
          [] OTHER -> UNCHANGED <<dead, bad, nops>>
